@@ -26,8 +26,8 @@ CLAIMED = {
  "C17": ("interprocedural taint from script-controlled values to panic-prone operations with dominating-guard facts (PANIC-SINK); variadic-argument index check (VARIADIC-INDEX); lock-region check on writes to package-level maps (GLOBAL-MAP-WRITE) and write-under-read-lock contradiction rule (RLOCK-WRITE); length-bound check on value lists returned by the interpreter (RESULT-INDEX); nil-flow analysis from every command parameter for which argument conversion accepts $nil to its dereferences, through cells, closures and repository callees (NIL-ARG)",
          "Structural necessary condition for the no-panic clause: package-level maps are written after initialisation only under a write lock and nothing is written under a read lock (unsynchronised map writes abort the process); no value chosen by the script (command arguments and options, redirection fds, input values, evaluated expressions) reaches an index, slice bound, make size, integer divisor, signed shift, unchecked type assertion or argument-panicking library call unless checks on every path establish that it is safe; audited exceptions are listed with reasons; a list handed back by vals.Collect or Frame.CaptureOutput is indexed only within a proven length; every command parameter that can arrive as $nil (pointer, non-empty interface, map, func) is compared with nil before it is needed, and typed variables refuse $nil. Other nil dereferences, resource exhaustion and the no-hang clause are not decided.",
          "trusts go/ssa, the curated library-sink table and the audit table (sa/internal/rules/c17.go); guard facts assume loads of the same field between a check and its use see the same value"),
- "C18": ("who-may-send ownership check on pipeline value channels (SEND-OWN), ordering/pairing on the per-form function's CFG (STOP-ORDER), literal check (SENDERR-NONNIL), def-use check of the exception slice (ALL-EXC), early-exit-before-join pattern (NO-JOIN-ON-EARLY-EXIT), who-may rule on token-limited readers (INPUT-TO-EOF), reachability rule from externalCmd.Call to value-channel operations (EXT-NO-VALUES)",
-         "Structural necessary conditions for the reader-gone/no-deadlock and all-exceptions clauses: value sends always watch sendStop; the reader-gone error is published before sendStop is closed; owned ports are closed and wg.Done runs exactly once per form; every form has its own exception slot; no command joins a band-draining goroutine after it may have stopped reading the other band (two known findings: only-values, only-bytes); running an external command touches no value channel. Delivery order and exactly-once delivery are not decided.",
+ "C18": ("who-may-send ownership check on pipeline value channels (SEND-OWN), ordering/pairing on the per-form function's CFG (STOP-ORDER), literal check (SENDERR-NONNIL), def-use check of the exception slice (ALL-EXC), early-exit-before-join pattern (NO-JOIN-ON-EARLY-EXIT), who-may rule on token-limited readers (INPUT-TO-EOF), reachability rule from externalCmd.Call to value-channel operations (EXT-NO-VALUES), type-case check of the reader-gone predicate (GONE-COMBINED), use check on values received from value channels (NIL-IS-A-VALUE)",
+         "Structural necessary conditions for the reader-gone/no-deadlock and all-exceptions clauses: value sends always watch sendStop; the reader-gone error is published before sendStop is closed; owned ports are closed and wg.Done runs exactly once per form; every form has its own exception slot; no command joins a band-draining goroutine after it may have stopped reading the other band (two known findings: only-values, only-bytes); running an external command touches no value channel; reader-gone is recognised through error combinators; a received nil is never taken for a closed channel. Delivery order and exactly-once delivery are not decided.",
          "trusts go/ssa; channel provenance is resolved through fields, locals and captured variables, not through arbitrary aliases"),
  "C19": ("dominance checks on the pipeline/chunk CFGs (CANCEL-GATE), must-check-result rule on semaphore.Acquire (ACQUIRE-CHECK), select-shape rule for timer waits (INTERRUPTIBLE-BLOCK), spawn/join pairing for every go statement (JOINED)",
          "Structural necessary conditions: no pipeline starts without testing for an interrupt, a chunk reports an interrupt before returning normally, a failed Acquire never leads to a started callback or a Release, timer waits are interruptible, every goroutine of pkg/eval and pkg/mods is joined or an audited long-lived helper. Promptness and real schedules are not decided.",
@@ -56,8 +56,8 @@ CLAIMED = {
  "C11": ("def-use rule that big numbers pass a normaliser before becoming Elvish values (NORM, GOFN-NORM), taint-to-sink rule for zero divisors of big-number operations (EXACT-ZERO)",
          "Structural necessary conditions for canonical form and for 'no exact result raises an exception': no *big.Int/*big.Rat is output or stored in a container un-normalised, goFn.Call normalises every builtin return value, every zero-panicking big-number operation reached by script numbers is guarded by a non-zero test or audited. Numeric correctness is not decided.",
          "trusts go/ssa; EXACT-ZERO shares the audit table of C17"),
- "C24": ("def-use check that history keys come from bbolt's NextSequence of the same transaction (SEQ-SOURCE), encoder/decoder sibling agreement on fixed-width big-endian keys (KEY-ORDER)",
-         "Structural necessary conditions: sequence numbers come only from the bucket's counter (never set by hand, never derived from existing keys), and every key a cursor compares is an 8-byte big-endian integer produced and read by one codec pair, so byte order equals numeric order. Search and score semantics are not decided.",
+ "C24": ("def-use check that history keys come from bbolt's NextSequence of the same transaction (SEQ-SOURCE), encoder/decoder sibling agreement on fixed-width big-endian keys (KEY-ORDER), path check that every operation, listings included, runs at most one transaction (ONE-TX)",
+         "Structural necessary conditions: sequence numbers come only from the bucket's counter (never set by hand, never derived from existing keys), and every key a cursor compares is an 8-byte big-endian integer produced and read by one codec pair, so byte order equals numeric order; a listing is one cursor walk over one snapshot. Search and score semantics are not decided.",
          "trusts go/ssa and bbolt's sequence counter"),
  "C25": ("who-may rule for bbolt mutations (TX-ONLY), constant evaluation of bolt.Options (SYNC-ON), def-use check that transaction errors are returned (ACK-AFTER-COMMIT)",
          "Structural argument that durability is delegated to bbolt correctly: mutations only inside DB.Update (or initDB, run inside Update), fsync never disabled for the persistent store and a positive lock timeout, every operation returns its transaction's error. bbolt's own crash behaviour is trusted, not decided.",
@@ -77,8 +77,8 @@ CLAIMED = {
  "C40": ("ownership pairing for opened descriptors (OPEN-OWNED), must-call rule for returned cleanup functions on all success paths (CLEANUP-CALLED), close-before-overwrite dominance (REPLACE-CLOSES), spawn/join pairing (JOINED)",
          "Structural necessary conditions: every descriptor the evaluator opens is closed in place or recorded as owned by a form whose epilogue closes it; every cleanup function of a capture/pipe/file port is called or handed on on every path; a redirection closes the port it replaces; every goroutine is joined. Descriptor counts and the os.Pipe-failure path are not decided.",
          "trusts go/ssa; audited: process-lifetime /dev/null handle and black-hole drain"),
- "C42": ("constant evaluation of the open-flag table against the mode specification (FLAGS), taint-to-index check on the port table (FD-RANGE), guard check for self-duplication (DUP-SELF), ownership and close-before-overwrite rules (OPEN-OWNED, REPLACE-CLOSES), literal check for the closed port (SENDERR-NONNIL), totality of value I/O on installed ports: non-nil channel in every Port literal and closed-placeholder exclusion before every send (PORT-TOTAL), control-dependence check of the invalid-fd decision (FD-VALID)",
-         "Structural necessary conditions: each redirection mode compiles to exactly its open(2) flags, evaluated fds are range-checked on both sides before indexing or growing the port table, n>&n does not reuse a port it just closed, files opened by a redirection are owned by the form, the replaced port is closed, n>&- installs a port whose value output raises, and whether an fd is invalid depends on the number and the table entry only, never on the state of the port found. Actual byte routing is not decided.",
+ "C42": ("constant evaluation of the open-flag table against the mode specification (FLAGS), taint-to-index check on the port table (FD-RANGE), guard check for self-duplication (DUP-SELF), ownership and close-before-overwrite rules (OPEN-OWNED, REPLACE-CLOSES), literal check for the closed port (SENDERR-NONNIL), totality of value I/O on installed ports: non-nil channel in every Port literal and closed-placeholder exclusion before every send (PORT-TOTAL), control-dependence check of the invalid-fd decision (FD-VALID), shape check of the file table handed to os.StartProcess (FD-POSITIONAL)",
+         "Structural necessary conditions: each redirection mode compiles to exactly its open(2) flags, evaluated fds are range-checked on both sides before indexing or growing the port table, n>&n does not reuse a port it just closed, files opened by a redirection are owned by the form, the replaced port is closed, n>&- installs a port whose value output raises, and whether an fd is invalid depends on the number and the table entry only, never on the state of the port found; a port shared after n>&m is not closed under the other fd; an external command gets one file slot per port. Actual byte routing is not decided.",
          "trusts go/ssa and go/constant; flag values are read from package os for the analysed platform (thorough tier: five platforms)"),
  "C39": ("lockset dataflow over SSA with boolean-correlated path sensitivity (EVALER-LOCK, PTRVAR-LOCK); guarded-field set derived from the struct declaration (GUARDED-SET); table-free write-under-read-lock contradiction rule (RLOCK-WRITE); lock-region check on writes through Frame fields shared by forks (FORK-SHARED)",
          "Structural necessary condition, all paths of all functions: every access to the interpreter's mutex-guarded fields and every dereference of a PtrVar pointer happens with the right lock held; maps do not leave the critical section; locks are balanced; what the forks of a frame share through a pointer field is written only under a mutex. Freedom from races on other state and serialisability of results are not decided.",
@@ -89,8 +89,8 @@ CLAIMED = {
  "C30": ("lockset on the highlight cache (CACHE-LOCK), control-dependence check of the late store on cache.code == captured code (STALE-GUARD), literal/def-use agreement (GET-CONSISTENT)",
          "Structural lemma for the 'never stale' clause: a late result is stored only if, under the lock, the cached code still equals the code it was computed for; the synchronous path caches code and result together. That highlighted segments concatenate back to the code is not decided.",
          "trusts go/ssa"),
- "C44": ("guard-dominance check on every value decoded from the wire in pkg/lsp (WIRE-GUARD), goroutine reachability / who-may rule on the documents map (HANDLER-SYNC), def-use agreement of the text used for parsing, completing, storing and converting positions (TEXT-AGREE), def-use and loop-path check of the published diagnostics (DIAG-SOURCE)",
-         "Structural necessary conditions: decoded pointers, slices, strings, interfaces and numbers are dereferenced, indexed, asserted or used as an index only under a dominating check (the server has no recover); the documents map is touched only by the synchronous handlers; one request uses one text for parsing, completion, storage and every position conversion, and the tree searched belongs to that text; diagnostics are exactly the converted ranges of the unpacked parse errors of that text, one per entry, published under the document's URI. The UTF-16/CRLF arithmetic of walkString and its round trip, and the content of hover/completion answers, are not decided.",
+ "C44": ("guard-dominance check on every value decoded from the wire in pkg/lsp (WIRE-GUARD), goroutine reachability / who-may rule on the documents map (HANDLER-SYNC), def-use agreement of the text used for parsing, completing, storing and converting positions (TEXT-AGREE), def-use and loop-path check of the published diagnostics (DIAG-SOURCE), lock-and-version check on asynchronous publishing (DIAG-ORDER), length-bound check on constant-index accesses (LSP-INDEX)",
+         "Structural necessary conditions: decoded pointers, slices, strings, interfaces and numbers are dereferenced, indexed, asserted or used as an index only under a dominating check (the server has no recover); the documents map is touched only by the synchronous handlers; one request uses one text for parsing, completion, storage and every position conversion, and the tree searched belongs to that text; diagnostics are exactly the converted ranges of the unpacked parse errors of that text, one per entry, published under the document's URI, and when published from a goroutine per update the diagnostics of an older text are dropped once newer ones are out; fixed-position accesses to strings and lists have a proven length. The UTF-16/CRLF arithmetic of walkString and its round trip, and the content of hover/completion answers, are not decided.",
          "trusts go/ssa, json.Unmarshal's zero-value behaviour for absent members and jsonrpc2's one-request-at-a-time handler calls"),
  "C29": ("who-may-write and def-use check on the frozen bound of the shared history and guard-dominance check on every database read (FROZEN-UPPER); def-use check of the session entry's sequence number (SESSION-ADD)",
          "Structural necessary condition of the 'session's view' clause: the bound of the shared history is read from the database once per store, is never rewritten, and bounds every database read of the store and its cursor (commands stored by other sessions after the session started cannot enter the walk); session commands are recorded under the number the shared store returned. Matching, order, de-duplication and the cursor hand-off are not decided.",
